@@ -6,6 +6,9 @@
      A <id> <ty> <lit> <sexpr>         assignment  x = e  with x : ty currently holding lit
      S <id> <lit>                      text of the number when concatenated to a string
      N <id> <sexpr>                    enumerator initialiser: efold (enumred.c) and rt_eval
+     X <id> (D <enum> ...)             a set of enum declarations: index of every enumerator
+         <enum> ::= (E <item> ...)   <item> ::= p | r | (v <ix>)      plain / record style / valued
+         <ix>   ::= (R <enum no> <position>) | (L ..) | (U ..) | (B ..) | (P ..) | (C ..)   decimal nats
    <sexpr> ::= (L <kind> <num>) | (U <unop> <sexpr>) | (B <binop> <sexpr> <sexpr>)
              | (P <sexpr>) | (C <sexpr> <sexpr> <sexpr>)
    <lit>   ::= (L <kind> <num>)        kind: b i l f d e ; num: [-]hex digits (value for b i l e,
@@ -15,6 +18,8 @@
           CLEAN=<0|1> STRICT=<0|1> UB=<0|1>
      <id> ASSIGN=<VAL kind num|FAULT ..|CRASH k> UB=<0|1> FOLD=<as above, of the converted right side>
      <id> TEXT=<text>
+     <id> IDX=OK <n,n,..;n,..>  |  IDX=BAD <enum no> <position> <CYCLIC|UNKNOWN|DIVZERO|NOTINT|FUEL>
+          |  IDX=DUP <enum no> <position> <n>             (n in the [-]hex notation)
 *)
 module M = Arithmodel
 
@@ -135,6 +140,38 @@ let rec sexpr_of (x : sx) : M.sexpr =
   | List [Atom "P"; a] -> M.SSup (sexpr_of a)
   | List [Atom "C"; c; a; b] -> M.SCond (sexpr_of c, sexpr_of a, sexpr_of b)
   | _ -> failwith "bad sexpr"
+
+let rec nat_of_int (n : int) : M.nat = if n <= 0 then M.O else M.S (nat_of_int (n - 1))
+let rec int_of_nat (n : M.nat) : int = match n with M.O -> 0 | M.S m -> 1 + int_of_nat m
+
+let rec ix_of (x : sx) : M.ix =
+  match x with
+  | List [Atom "R"; Atom en; Atom pos] ->
+    M.XRef (nat_of_int (int_of_string en), nat_of_int (int_of_string pos))
+  | List [Atom "L"; Atom k; Atom n] -> M.XLit (lit_of k n)
+  | List [Atom "U"; Atom o; a] -> M.XUn (unop_of o, ix_of a)
+  | List [Atom "B"; Atom o; a; b] -> M.XBin (binop_of o, ix_of a, ix_of b)
+  | List [Atom "P"; a] -> M.XSup (ix_of a)
+  | List [Atom "C"; c; a; b] -> M.XCond (ix_of c, ix_of a, ix_of b)
+  | _ -> failwith "bad ix"
+
+let item_of (x : sx) : M.item =
+  match x with
+  | Atom "p" -> M.ItPlain
+  | Atom "r" -> M.ItRecord
+  | List [Atom "v"; e] -> M.ItValue (ix_of e)
+  | _ -> failwith "bad item"
+
+let decls_of (x : sx) : M.item list list =
+  match x with
+  | List (Atom "D" :: enums) ->
+    List.map (function List (Atom "E" :: items) -> List.map item_of items | _ -> failwith "bad enum") enums
+  | _ -> failwith "bad decls"
+
+let string_of_xres = function
+  | M.XOk z -> "OK " ^ string_of_z z
+  | M.XCyclic -> "CYCLIC" | M.XUnknown -> "UNKNOWN" | M.XDivZero -> "DIVZERO"
+  | M.XNotInt -> "NOTINT" | M.XFuel -> "FUEL"
 
 let ty_of_string = function
   | "int" -> M.TInt | "long" -> M.TLong | "float" -> M.TFloat | "double" -> M.TDouble
@@ -267,6 +304,16 @@ let do_line (line : string) : unit =
             | M.FCrash -> "CRASH" in
           Printf.printf "%s ASSIGN=%s UB=%s FOLD=%s\n" id (string_of_outcome (M.rt_assign tl old e))
             (b01 (ub_of e')) f))
+  | "X" :: id :: rest ->
+    let (dx, _) = parse_sx rest in
+    (match M.decl_indices (decls_of dx) with
+     | M.DOk ls ->
+       Printf.printf "%s IDX=OK %s\n" id
+         (String.concat ";" (List.map (fun l -> String.concat "," (List.map string_of_z l)) ls))
+     | M.DBad ((en, pos), why) ->
+       Printf.printf "%s IDX=BAD %d %d %s\n" id (int_of_nat en) (int_of_nat pos) (string_of_xres why)
+     | M.DDup ((en, pos), z) ->
+       Printf.printf "%s IDX=DUP %d %d %s\n" id (int_of_nat en) (int_of_nat pos) (string_of_z z))
   | "S" :: id :: rest ->
     let (lx, _) = parse_sx rest in
     let txt = match lx with
